@@ -32,19 +32,25 @@ Proof.
   destruct (n_key n + d <? 0) eqn:A; [lia|]. destruct (n_key n + d >? 127) eqn:B; lia.
 Qed.
 
-(* programs that do not overwrite the key shift (ks = false) / the track key (tk = false) *)
-Fixpoint keeps (ks tk : bool) (c : cmd) : bool :=
-  let all := forallb (keeps ks tk) in
+(* programs that do not overwrite the key shift (ks = false) / the track key (tk = false) / that do not use the octave
+   otherwise than through the current octave of the track (oc = false: no o > < octave-once marks, no octave written on a
+   note, no n-note - an n-note has no octave) *)
+Fixpoint keeps3 (ks tk oc : bool) (c : cmd) : bool :=
+  let all := forallb (keeps3 ks tk oc) in
   match c with
   | CKeyShift _ => ks
   | CTrackKey _ => tk
+  | CNote _ _ _ _ _ _ _ oct => oc || (match oct with None => true | Some _ => false end)
+  | CNoteN _ _ _ _ _ | COct _ | COctUp | COctDown | COnce _ _ _ _ _ _ _ _ _ => oc
   | CLoop _ body brk => all body && (match brk with Some b => all b | None => true end)
   | CChord items _ _ _ => all items
   | CTuplet items _ => all items
   | CSub body => all body
   | _ => true
   end.
+Definition keeps (ks tk : bool) (c : cmd) : bool := keeps3 ks tk true c.
 Definition keeps_prog (ks tk : bool) (l : list cmd) : bool := forallb (keeps ks tk) l.
+Definition keeps3_prog (ks tk oc : bool) (l : list cmd) : bool := forallb (keeps3 ks tk oc) l.
 
 Definition notes_tup (p : perf) : list (list (Z * Z * Z * Z * Z)) :=
   map (fun t => map (fun n => (n_ch n, n_key n, n_start n, n_dur n, n_vel n)) (t_notes t)) (p_tracks p).
@@ -67,17 +73,20 @@ Proof. induction k as [|k IH]; intros ts; cbn [grow_tracks]; [lia|]. rewrite IH,
 Section Transpose.
 Variable g : Z.            (* the song's key shift is raised by g *)
 Variable off : nat -> Z.   (* the track key of track i is raised by off i *)
+Variable offo : nat -> Z.  (* the octave of track i is raised by offo i *)
 Variable olds : nat -> list note.   (* the notes track i held before: they are not moved *)
-Variables ks tk : bool.
+Variables ks tk oc : bool.
 Hypothesis Hks : ks = true -> g = 0.
 Hypothesis Htk : tk = true -> forall i, off i = 0.
+Hypothesis Hoc : oc = true -> forall i, offo i = 0.
+Definition mv (i : nat) : Z := g + off i + 12 * offo i.
 
 Definition d0 : tstate := tstate_new 0 0.
 
 Definition trel (i : nat) (t t' : tstate) : Prop :=
-  t_pos t' = t_pos t /\ t_ch t' = t_ch t /\ t_len t' = t_len t /\ t_oct t' = t_oct t /\ t_vel t' = t_vel t /\
+  t_pos t' = t_pos t /\ t_ch t' = t_ch t /\ t_len t' = t_len t /\ t_oct t' = t_oct t + offo i /\ t_vel t' = t_vel t /\
   t_gate t' = t_gate t /\ t_timing t' = t_timing t /\ t_key t' = t_key t + off i /\
-  exists nw nw', t_notes t = olds i ++ nw /\ t_notes t' = olds i ++ nw' /\ Forall2 (transp (g + off i)) nw nw'.
+  exists nw nw', t_notes t = olds i ++ nw /\ t_notes t' = olds i ++ nw' /\ Forall2 (transp (mv i)) nw nw'.
 
 Definition Trel (ts ts' : list tstate) : Prop :=
   length ts' = length ts /\ forall i, (i < length ts)%nat -> trel i (nth i ts d0) (nth i ts' d0).
@@ -85,7 +94,7 @@ Definition Trel (ts ts' : list tstate) : Prop :=
 Definition Prel (q q' : perf) : Prop :=
   Trel (p_tracks q) (p_tracks q') /\ p_cur q' = p_cur q /\ (p_cur q < length (p_tracks q))%nat /\
   p_tb q' = p_tb q /\ p_keyflag q' = p_keyflag q /\ p_keyshift q' = p_keyshift q + g /\ p_oct_once q' = p_oct_once q /\
-  (forall i, (length (p_tracks q) <= i)%nat -> off i = 0 /\ olds i = []).
+  (forall i, (length (p_tracks q) <= i)%nat -> off i = 0 /\ offo i = 0 /\ olds i = []).
 
 Lemma Prel_cur q q' : Prel q q' -> trel (p_cur q) (cur q) (cur q').
 Proof. intros ((_ & HT) & Hc & Hlt & _). unfold cur. rewrite Hc. apply HT, Hlt. Qed.
@@ -125,28 +134,28 @@ Proof. intros (_ & _ & _ & _ & Hkf & _). unfold keyflag_of. rewrite Hkf. reflexi
 
 (* one sounding note *)
 Lemma Prel_play q q' x len gate vel timing : Prel q q' ->
-  Prel (play q (clampz 0 127 x) len gate vel timing) (play q' (clampz 0 127 (x + (g + off (p_cur q)))) len gate vel timing).
+  Prel (play q (clampz 0 127 x) len gate vel timing) (play q' (clampz 0 127 (x + mv (p_cur q))) len gate vel timing).
 Proof.
   intros H. unfold play. apply Prel_with_cur; [exact H|]. pose proof (Prel_cur q q' H) as C.
   trel_fields C. add_related x.
 Qed.
-Lemma key_of_rel q q' base acc natural oct : Prel q q' ->
+Lemma key_of_rel q q' base acc natural oct : Prel q q' -> oct = None \/ offo (p_cur q) = 0 ->
   exists x, key_of q base acc natural oct = clampz 0 127 x /\
-            key_of q' base acc natural oct = clampz 0 127 (x + (g + off (p_cur q))).
+            key_of q' base acc natural oct = clampz 0 127 (x + mv (p_cur q)).
 Proof.
-  intros H. pose proof (Prel_cur q q' H) as C. destruct C as (E1 & E2 & E3 & E4 & E5 & E6 & E7 & E8 & E9).
-  destruct H as (_ & _ & _ & _ & Hkf & Hs & _). unfold key_of, keyflag_of. rewrite Hkf, Hs, E8, E4.
-  eexists. split; [reflexivity|]. f_equal. lia.
+  intros H HO. pose proof (Prel_cur q q' H) as C. destruct C as (E1 & E2 & E3 & E4 & E5 & E6 & E7 & E8 & E9).
+  destruct H as (_ & _ & _ & _ & Hkf & Hs & _). unfold key_of, keyflag_of, mv. rewrite Hkf, Hs, E8, E4.
+  eexists. split; [reflexivity|]. f_equal. destruct HO as [-> | Z0]; [lia|]. rewrite Z0. destruct oct; lia.
 Qed.
 
 (* a lettered note *)
-Lemma Prel_note q q' base acc natural len gate vel timing oct : Prel q q' ->
+Lemma Prel_note q q' base acc natural len gate vel timing oct : Prel q q' -> oct = None \/ offo (p_cur q) = 0 ->
   Prel (play q (key_of q base acc natural oct) (len_of q len (t_len (cur q)))
              (opt_or gate (t_gate (cur q))) (opt_or vel (t_vel (cur q))) (opt_or timing (t_timing (cur q))))
        (play q' (key_of q' base acc natural oct) (len_of q' len (t_len (cur q')))
              (opt_or gate (t_gate (cur q'))) (opt_or vel (t_vel (cur q'))) (opt_or timing (t_timing (cur q')))).
 Proof.
-  intros H. destruct (key_of_rel q q' base acc natural oct H) as (x & K1 & K2). rewrite K1, K2.
+  intros H HO. destruct (key_of_rel q q' base acc natural oct H HO) as (x & K1 & K2). rewrite K1, K2.
   pose proof (Prel_cur q q' H) as (E1 & E2 & E3 & E4 & E5 & E6 & E7 & E8 & E9).
   rewrite (len_of_rel q q' _ _ H), E3, E5, E6, E7. apply Prel_play, H.
 Qed.
@@ -156,7 +165,7 @@ Lemma Prel_repeat (F F' : perf -> perf) : (forall q q', Prel q q' -> Prel (F q) 
 Proof. intros HF. induction k as [|k IH]; intros q q' H; cbn [repeat_fn]; [exact H|]. apply IH, HF, H. Qed.
 
 (* new tracks *)
-Lemma Trel_grow tb : forall k ts ts', Trel ts ts' -> (forall i, (length ts <= i)%nat -> off i = 0 /\ olds i = []) ->
+Lemma Trel_grow tb : forall k ts ts', Trel ts ts' -> (forall i, (length ts <= i)%nat -> off i = 0 /\ offo i = 0 /\ olds i = []) ->
   Trel (grow_tracks k tb ts) (grow_tracks k tb ts').
 Proof.
   induction k as [|k IH]; intros ts ts' (HL & HT) Hz; cbn [grow_tracks]; [split; assumption|].
@@ -167,33 +176,34 @@ Proof.
     + assert (i = length ts) by lia. subst i. rewrite app_nth2 by lia. rewrite (app_nth2 ts') by lia.
       rewrite HL, !Nat.sub_diag. cbn [nth]. unfold trel, tstate_new.
       cbn [t_pos t_ch t_len t_oct t_vel t_gate t_timing t_key t_notes].
-      destruct (Hz (length ts) ltac:(lia)) as [Z1 Z2]. rewrite Z1, Z2. repeat split; try reflexivity; try lia.
+      destruct (Hz (length ts) ltac:(lia)) as (Z1 & Z3 & Z2). rewrite Z1, Z2, Z3. repeat split; try reflexivity; try lia.
       exists [], []. repeat split. constructor.
   - intros i Hi. rewrite app_length in Hi. apply Hz. lia.
 Qed.
 
-Lemma Prel_sem_prog f : (forall c q q', keeps ks tk c = true -> Prel q q' -> Prel (NoteSem.sem f c q) (NoteSem.sem f c q')) ->
-  forall l q q', keeps_prog ks tk l = true -> Prel q q' -> Prel (sem_prog f l q) (sem_prog f l q').
+Lemma Prel_sem_prog f : (forall c q q', keeps3 ks tk oc c = true -> Prel q q' -> Prel (NoteSem.sem f c q) (NoteSem.sem f c q')) ->
+  forall l q q', keeps3_prog ks tk oc l = true -> Prel q q' -> Prel (sem_prog f l q) (sem_prog f l q').
 Proof.
   intros IH. induction l as [|x r IHl]; intros q q' K H; cbn [sem_prog]; [exact H|].
-  unfold keeps_prog in K. cbn [forallb] in K. apply andb_true_iff in K. destruct K as [K1 K2].
+  unfold keeps3_prog in K. cbn [forallb] in K. apply andb_true_iff in K. destruct K as [K1 K2].
   apply IHl; [exact K2|]. apply IH; assumption.
 Qed.
 
 Lemma Prel_chord_fold f start l gt vel :
-  (forall c q q', keeps ks tk c = true -> Prel q q' -> Prel (NoteSem.sem f c q) (NoteSem.sem f c q')) ->
-  forall items q q', Prel q q' ->
+  (forall c q q', keeps3 ks tk oc c = true -> Prel q q' -> Prel (NoteSem.sem f c q) (NoteSem.sem f c q')) ->
+  forall items q q', forallb (keeps3 ks tk oc) items = true -> Prel q q' ->
   Prel (fold_left (chord_step f start l gt vel) items q) (fold_left (chord_step f start l gt vel) items q').
 Proof.
-  intros IH. induction items as [|c items IHi]; intros q q' H; cbn [fold_left]; [exact H|].
-  apply IHi. destruct c; cbn [chord_step]; try exact H.
-  - destruct (key_of_rel q q' base acc natural None H) as (x & K1 & K2). rewrite K1, K2.
+  intros IH. induction items as [|c items IHi]; intros q q' K H; cbn [fold_left]; [exact H|].
+  cbn [forallb] in K. apply andb_true_iff in K. destruct K as [K1 K2].
+  apply IHi; [exact K2|]. destruct c; cbn [chord_step]; try exact H.
+  - destruct (key_of_rel q q' base acc natural None H (or_introl eq_refl)) as (x & K3 & K4). rewrite K3, K4.
     apply Prel_with_cur; [exact H|]. pose proof (Prel_cur q q' H) as C. trel_fields C. add_related x.
-  - apply IH; [reflexivity|exact H].
-  - apply IH; [reflexivity|exact H].
+  - apply IH; [exact K1|exact H].
+  - apply IH; [exact K1|exact H].
 Qed.
 
-Theorem Prel_sem : forall f c q q', keeps ks tk c = true -> Prel q q' -> Prel (NoteSem.sem f c q) (NoteSem.sem f c q').
+Theorem Prel_sem : forall f c q q', keeps3 ks tk oc c = true -> Prel q q' -> Prel (NoteSem.sem f c q) (NoteSem.sem f c q').
 Proof.
   induction f as [|f IH]; intros c q q' K H; [exact H|].
   pose proof (Prel_cur q q' H) as C.
@@ -201,22 +211,23 @@ Proof.
             (forall t t' i, trel i t t' -> trel i (F t) (F t')) -> Prel (with_cur q F) (with_cur q' F)).
   { intros F HF. apply Prel_with_cur; [exact H|]. apply HF, C. }
   destruct c.
-  - (* CNote *) cbn [NoteSem.sem]. apply Prel_note, H.
+  - (* CNote *) cbn [NoteSem.sem]. apply Prel_note; [exact H|]. cbn [keeps3] in K.
+    destruct oc eqn:OC; [right; apply Hoc; reflexivity|]. destruct oct; [discriminate K|left; reflexivity].
   - (* CNoteN *) cbn [NoteSem.sem].
     pose proof C as (E1 & E2 & E3 & E4 & E5 & E6 & E7 & E8 & E9). pose proof H as (_ & _ & _ & _ & _ & Hs & _).
-    rewrite (len_of_rel q q' _ _ H), E3, E5, E6, E7, E8, Hs.
+    rewrite (len_of_rel q q' _ _ H), E3, E5, E6, E7, E8, Hs. cbn [keeps3] in K.
     replace (no + (t_key (cur q) + off (p_cur q)) + (p_keyshift q + g))
-      with (no + t_key (cur q) + p_keyshift q + (g + off (p_cur q))) by lia.
+      with (no + t_key (cur q) + p_keyshift q + mv (p_cur q)) by (unfold mv; rewrite (Hoc K); lia).
     apply Prel_play, H.
   - (* CRest *) cbn [NoteSem.sem]. apply Prel_with_cur; [exact H|]. rewrite (len_of_rel q q' _ _ H). trel_fields C.
   - (* CLen *) cbn [NoteSem.sem]. apply Prel_with_cur; [exact H|]. rewrite (len_of_rel q q' _ _ H).
     destruct H as (_ & _ & _ & Htb & _). rewrite Htb. trel_fields C.
+  - cbn [NoteSem.sem]. cbn [keeps3] in K. apply SAME. intros t t' i T. pose proof (Hoc K i) as Z0. trel_fields T. rewrite Z0, !Z.add_0_r. reflexivity.
   - cbn [NoteSem.sem]. apply SAME. intros t t' i T. trel_fields T.
   - cbn [NoteSem.sem]. apply SAME. intros t t' i T. trel_fields T.
   - cbn [NoteSem.sem]. apply SAME. intros t t' i T. trel_fields T.
-  - cbn [NoteSem.sem]. apply SAME. intros t t' i T. trel_fields T.
-  - cbn [NoteSem.sem]. apply SAME. intros t t' i T. trel_fields T.
-  - cbn [NoteSem.sem]. apply SAME. intros t t' i T. trel_fields T.
+  - cbn [NoteSem.sem]. cbn [keeps3] in K. apply SAME. intros t t' i T. pose proof (Hoc K i) as Z0. trel_fields T. rewrite Z0, !Z.add_0_r. reflexivity.
+  - cbn [NoteSem.sem]. cbn [keeps3] in K. apply SAME. intros t t' i T. pose proof (Hoc K i) as Z0. trel_fields T. rewrite Z0, !Z.add_0_r. reflexivity.
   - cbn [NoteSem.sem]. apply SAME. intros t t' i T. trel_fields T.
   - cbn [NoteSem.sem]. apply SAME. intros t t' i T. trel_fields T.
   - (* CLoop *) rewrite !sem_loop. cbn [keeps] in K. apply andb_true_iff in K. destruct K as [K1 K2].
@@ -228,8 +239,8 @@ Proof.
     pose proof C as (E1 & E2 & E3 & E4 & E5 & E6 & E7 & E8 & E9).
     rewrite (len_of_rel q q' _ _ H), E1, E3, E6.
     apply Prel_with_cur.
-    + apply Prel_chord_fold; [exact IH|exact H].
-    + assert (H2 := Prel_chord_fold f (t_pos (cur q)) (len_of q len (t_len (cur q))) (opt_or gate (t_gate (cur q))) vel IH items q q' H).
+    + apply Prel_chord_fold; [exact IH|exact K|exact H].
+    + assert (H2 := Prel_chord_fold f (t_pos (cur q)) (len_of q len (t_len (cur q))) (opt_or gate (t_gate (cur q))) vel IH items q q' K H).
       pose proof (Prel_cur _ _ H2) as C2. trel_fields C2.
   - (* CTuplet *) rewrite !sem_tuplet. cbn [keeps] in K. cbv zeta.
     pose proof C as (E1 & E2 & E3 & E4 & E5 & E6 & E7 & E8 & E9).
@@ -256,16 +267,16 @@ Proof.
     split; [exact HT|]. repeat (split; [first [assumption | lia]|]). exact Hz.
   - (* CTrackKey *) cbn [NoteSem.sem]. cbn [keeps] in K. apply Prel_with_cur; [exact H|].
     trel_fields C. cbn [t_key]. rewrite (Htk K). lia.
-  - (* COnce *) cbn [NoteSem.sem]. cbv zeta.
-    pose proof C as (E1 & E2 & E3 & E4 & E5 & E6 & E7 & E8 & E9). rewrite E4.
+  - (* COnce *) cbn [NoteSem.sem]. cbv zeta. cbn [keeps3] in K. pose proof (Hoc K) as Z0.
+    pose proof C as (E1 & E2 & E3 & E4 & E5 & E6 & E7 & E8 & E9). rewrite E4, Z0, Z.add_0_r.
     assert (H1 : Prel (with_cur q (fun t => set_oct t (once_oct marks (t_oct (cur q)))))
                       (with_cur q' (fun t => set_oct t (once_oct marks (t_oct (cur q)))))).
-    { apply Prel_with_cur; [exact H|]. trel_fields C. }
-    assert (H2 := Prel_note _ _ base acc natural len gate vel timing oct H1).
-    apply Prel_with_cur; [exact H2|]. pose proof (Prel_cur _ _ H2) as C2. trel_fields C2.
+    { apply Prel_with_cur; [exact H|]. trel_fields C. rewrite Z0, Z.add_0_r. reflexivity. }
+    assert (H2 := Prel_note _ _ base acc natural len gate vel timing oct H1 (or_intror (Z0 _))).
+    apply Prel_with_cur; [exact H2|]. pose proof (Prel_cur _ _ H2) as C2. trel_fields C2. rewrite Z0, Z.add_0_r. reflexivity.
 Qed.
 
-Theorem Prel_prog f l q q' : keeps_prog ks tk l = true -> Prel q q' -> Prel (sem_prog f l q) (sem_prog f l q').
+Theorem Prel_prog f l q q' : keeps3_prog ks tk oc l = true -> Prel q q' -> Prel (sem_prog f l q) (sem_prog f l q').
 Proof. apply Prel_sem_prog. intros c. apply Prel_sem. Qed.
 End Transpose.
 
@@ -343,42 +354,46 @@ Proof.
   - apply IH; [lia|]. intros i Hi. apply (H (S i)). cbn [length]. lia.
 Qed.
 
-Lemma Prel_moved g off olds q P P' : (forall i, olds i = olds_of q i) ->
-  Prel g off olds P P' -> moved_after q (fun i => g + off i) P P' /\ same_but_keys P P' /\ valid P.
+Lemma Prel_moved g off offo olds q P P' : (forall i, olds i = olds_of q i) ->
+  Prel g off offo olds P P' -> moved_after q (fun i => g + off i + 12 * offo i) P P' /\ valid P.
 Proof.
-  intros Ho ((HL & HT) & Hc & Hlt & Htb & Hkf & Hs & Hoo & Hz). split; [|split].
+  intros Ho ((HL & HT) & Hc & Hlt & Htb & Hkf & Hs & Hoo & Hz). split.
   - split; [exact HL|]. intros i Hi. destruct (HT i Hi) as (_ & _ & _ & _ & _ & _ & _ & _ & N). rewrite <- Ho. exact N.
-  - repeat split; try assumption. apply (Forall2_of_nth _ d0 d0); [exact HL|]. intros i Hi.
-    destruct (HT i Hi) as (E1 & E2 & E3 & E4 & E5 & E6 & E7 & _). repeat split; assumption.
   - exact Hlt.
+Qed.
+Lemma Prel_same g off olds P P' : Prel g off (fun _ => 0) olds P P' -> same_but_keys P P'.
+Proof.
+  intros ((HL & HT) & Hc & Hlt & Htb & Hkf & Hs & Hoo & Hz).
+  repeat split; try assumption. apply (Forall2_of_nth _ d0 d0); [exact HL|]. intros i Hi.
+  destruct (HT i Hi) as (E1 & E2 & E3 & E4 & E5 & E6 & E7 & _). rewrite Z.add_0_r in E4. repeat split; assumption.
 Qed.
 
 Lemma olds_of_beyond q i : (length (p_tracks q) <= i)%nat -> olds_of q i = [].
 Proof. intros H. unfold olds_of. rewrite nth_overflow by exact H. reflexivity. Qed.
 
-Lemma trel_same g olds i t : olds i = t_notes t -> trel g (fun _ => 0) olds i t t.
+Lemma trel_same g olds i t : olds i = t_notes t -> trel g (fun _ => 0) (fun _ => 0) olds i t t.
 Proof. intros H. unfold trel. repeat split; try lia. exists [], []. rewrite H, app_nil_r. repeat split. constructor. Qed.
 
-Lemma Prel_refl q : valid q -> Prel 0 (fun _ => 0) (olds_of q) q q.
+Lemma Prel_refl q : valid q -> Prel 0 (fun _ => 0) (fun _ => 0) (olds_of q) q q.
 Proof.
   intros V. unfold Prel, Trel.
   split; [split; [reflexivity | intros i Hi; apply trel_same; reflexivity] |].
   repeat (split; [first [reflexivity | lia | exact V]|]). apply olds_of_beyond. assumption.
 Qed.
 
-Lemma keeps_tt : forall c, keeps true true c = true.
+Lemma keeps_tt : forall c, keeps3 true true true c = true.
 Proof.
   apply cmd_children_ind. intros c IH.
-  assert (A : forall l, (forall x, In x l -> In x (children c)) -> forallb (keeps true true) l = true).
+  assert (A : forall l, (forall x, In x l -> In x (children c)) -> forallb (keeps3 true true true) l = true).
   { intros l Hl. apply forallb_forall. intros x Hx. apply IH, Hl, Hx. }
-  destruct c; cbn [keeps]; try reflexivity.
+  destruct c; cbn [keeps3]; try reflexivity.
   - rewrite (A body) by (intros x Hx; cbn [children]; apply in_or_app; left; exact Hx).
     destruct brk as [b|]; [|reflexivity]. apply A. intros x Hx. cbn [children]. apply in_or_app. right. exact Hx.
   - apply A. intros x Hx. exact Hx.
   - apply A. intros x Hx. exact Hx.
   - apply A. intros x Hx. exact Hx.
 Qed.
-Lemma keeps_prog_tt l : keeps_prog true true l = true.
+Lemma keeps_prog_tt l : keeps3_prog true true true l = true.
 Proof. apply forallb_forall. intros x _. apply keeps_tt. Qed.
 
 Lemma perf0_valid : valid perf0.
@@ -386,14 +401,14 @@ Proof. unfold valid. cbn. lia. Qed.
 (* every state the semantics reaches has its current track *)
 Theorem sem_prog_valid f l q : valid q -> valid (sem_prog f l q).
 Proof.
-  intros V. assert (H := Prel_prog 0 (fun _ => 0) (olds_of q) true true (fun _ => eq_refl) (fun _ _ => eq_refl) f l q q
-                           (keeps_prog_tt l) (Prel_refl q V)).
+  intros V. assert (H := Prel_prog 0 (fun _ => 0) (fun _ => 0) (olds_of q) true true true (fun _ => eq_refl) (fun _ _ => eq_refl)
+                           (fun _ _ => eq_refl) f l q q (keeps_prog_tt l) (Prel_refl q V)).
   apply H.
 Qed.
 
 (* ---- KeyShift ---- *)
 Lemma Prel_keyshift_start f q a k : valid q ->
-  Prel k (fun _ => 0) (olds_of q) (NoteSem.sem (S f) (CKeyShift a) q) (NoteSem.sem (S f) (CKeyShift (a + k)) q).
+  Prel k (fun _ => 0) (fun _ => 0) (olds_of q) (NoteSem.sem (S f) (CKeyShift a) q) (NoteSem.sem (S f) (CKeyShift (a + k)) q).
 Proof.
   intros V. cbn [NoteSem.sem]. unfold Prel, Trel. cbn [p_tracks p_cur p_tb p_keyflag p_keyshift p_oct_once].
   split; [split; [reflexivity | intros i Hi; apply trel_same; reflexivity] |].
@@ -406,18 +421,18 @@ Theorem keyshift_law_from f q p a k : valid q -> keeps_prog false true p = true 
   moved_after q (fun _ => k) P P' /\ same_but_keys P P'.
 Proof.
   intros V K P P'. unfold P, P'. cbn [sem_prog].
-  assert (H := Prel_prog k (fun _ => 0) (olds_of q) false true (fun E => ltac:(discriminate E)) (fun _ _ => eq_refl) (S f) p _ _
-                         K (Prel_keyshift_start f q a k V)).
-  destruct (Prel_moved k (fun _ => 0) (olds_of q) q _ _ (fun _ => eq_refl) H) as (M & S & _).
-  split; [|exact S]. destruct M as (ML & MT). split; [exact ML|]. intros i Hi. destruct (MT i Hi) as (nw & nw' & A & B & F).
-  exists nw, nw'. repeat split; try assumption. replace k with (k + 0) by lia. exact F.
+  assert (H := Prel_prog k (fun _ => 0) (fun _ => 0) (olds_of q) false true true (fun E => ltac:(discriminate E)) (fun _ _ => eq_refl)
+                         (fun _ _ => eq_refl) (S f) p _ _ K (Prel_keyshift_start f q a k V)).
+  destruct (Prel_moved k (fun _ => 0) (fun _ => 0) (olds_of q) q _ _ (fun _ => eq_refl) H) as (M & _).
+  split; [|exact (Prel_same _ _ _ _ _ H)]. destruct M as (ML & MT). split; [exact ML|]. intros i Hi. destruct (MT i Hi) as (nw & nw' & A & B & F).
+  exists nw, nw'. repeat split; try assumption. replace k with (k + 0 + 12 * 0) by lia. exact F.
 Qed.
 
 (* ---- TrackKey ---- *)
 Definition only_track (c : nat) (k : Z) (i : nat) : Z := if Nat.eqb i c then k else 0.
 
 Lemma Prel_trackkey_start f q a k : valid q ->
-  Prel 0 (only_track (p_cur q) k) (olds_of q) (NoteSem.sem (S f) (CTrackKey a) q) (NoteSem.sem (S f) (CTrackKey (a + k)) q).
+  Prel 0 (only_track (p_cur q) k) (fun _ => 0) (olds_of q) (NoteSem.sem (S f) (CTrackKey a) q) (NoteSem.sem (S f) (CTrackKey (a + k)) q).
 Proof.
   intros V. cbn [NoteSem.sem]. unfold Prel, Trel, with_cur. cbn [p_tracks p_cur p_tb p_keyflag p_keyshift p_oct_once].
   unfold valid in V. split; [split; [rewrite !upd_length; reflexivity|] |].
@@ -431,7 +446,7 @@ Proof.
       repeat split; try lia. exists [], []. rewrite app_nil_r. repeat split. constructor.
   - rewrite !upd_length. repeat (split; [first [reflexivity | lia]|]). intros i Hi. split.
     + unfold only_track. rewrite (proj2 (Nat.eqb_neq i (p_cur q))) by lia. reflexivity.
-    + apply olds_of_beyond, Hi.
+    + split; [reflexivity | apply olds_of_beyond, Hi].
 Qed.
 
 Theorem trackkey_law_from f q p a k : valid q -> keeps_prog true false p = true ->
@@ -440,10 +455,11 @@ Theorem trackkey_law_from f q p a k : valid q -> keeps_prog true false p = true 
   moved_after q (only_track (p_cur q) k) P P' /\ same_but_keys P P'.
 Proof.
   intros V K P P'. unfold P, P'. cbn [sem_prog].
-  assert (H := Prel_prog 0 (only_track (p_cur q) k) (olds_of q) true false (fun _ => eq_refl) (fun E => ltac:(discriminate E)) (S f) p _ _
-                         K (Prel_trackkey_start f q a k V)).
-  destruct (Prel_moved 0 (only_track (p_cur q) k) (olds_of q) q _ _ (fun _ => eq_refl) H) as (M & S & _).
-  split; [exact M|exact S].
+  assert (H := Prel_prog 0 (only_track (p_cur q) k) (fun _ => 0) (olds_of q) true false true (fun _ => eq_refl) (fun E => ltac:(discriminate E))
+                         (fun _ _ => eq_refl) (S f) p _ _ K (Prel_trackkey_start f q a k V)).
+  destruct (Prel_moved 0 (only_track (p_cur q) k) (fun _ => 0) (olds_of q) q _ _ (fun _ => eq_refl) H) as (M & _).
+  split; [|exact (Prel_same _ _ _ _ _ H)]. destruct M as (ML & MT). split; [exact ML|]. intros i Hi. destruct (MT i Hi) as (nw & nw' & A & B & F).
+  exists nw, nw'. repeat split; try assumption. replace (only_track (p_cur q) k i) with (0 + only_track (p_cur q) k i + 12 * 0) by lia. exact F.
 Qed.
 
 (* ---- on whole programs: the commands before the shift are a prefix `pre` ---- *)
@@ -613,4 +629,75 @@ Theorem trackkey_law_full pre p a k : keeps_prog true false p = true ->
 Proof.
   intros K. destruct (trackkey_law pre p a k K) as (M & S).
   exact (conj M (conj S (trackkey_law_others pre p a k K))).
+Qed.
+
+(* ------------------------------------------------------------------------------------------ *)
+(* 7. the octave: where a change of octave is a transposition                                   *)
+(* ------------------------------------------------------------------------------------------ *)
+(* On the track it is given on, o(a + j) instead of o(a) moves the notes played from there on by 12 j - for programs
+   that use the octave only through the track's current octave: no o, no > <, no octave-once marks, no octave written on
+   a note, no n-notes (keeps3 _ _ false).  Both octaves must be in 0..10 (o clamps).  Other tracks - also those created
+   later, which start at o5 - are not touched. *)
+Lemma clampz_id lo hi v : lo <= v <= hi -> clampz lo hi v = v.
+Proof. intros H. unfold clampz. destruct (v <? lo) eqn:A; [lia|]. destruct (v >? hi) eqn:B; lia. Qed.
+
+Lemma Prel_oct_start f q a j : valid q -> 0 <= a <= 10 -> 0 <= a + j <= 10 ->
+  Prel 0 (fun _ => 0) (only_track (p_cur q) j) (olds_of q) (NoteSem.sem (S f) (COct a) q) (NoteSem.sem (S f) (COct (a + j)) q).
+Proof.
+  intros V Ha Haj. cbn [NoteSem.sem]. unfold Prel, Trel, with_cur. cbn [p_tracks p_cur p_tb p_keyflag p_keyshift p_oct_once].
+  rewrite !(clampz_id 0 10) by assumption.
+  unfold valid in V. split; [split; [rewrite !upd_length; reflexivity|] |].
+  - intros i Hi. rewrite upd_length in Hi.
+    destruct (Nat.eq_dec i (p_cur q)) as [->|Hne].
+    + rewrite !nth_upd by lia. unfold trel, only_track, mv. rewrite Nat.eqb_refl.
+      cbn [t_pos t_ch t_len t_oct t_vel t_gate t_timing t_key t_notes set_oct].
+      repeat split; try lia. exists [], []. rewrite app_nil_r. repeat split. constructor.
+    + rewrite !nth_upd_other by exact Hne.
+      unfold trel, only_track, mv. rewrite (proj2 (Nat.eqb_neq _ _) Hne).
+      repeat split; try lia. exists [], []. rewrite app_nil_r. repeat split. constructor.
+  - rewrite !upd_length. do 6 (split; [first [reflexivity | lia]|]). intros i Hi. split; [reflexivity|]. split.
+    + unfold only_track. rewrite (proj2 (Nat.eqb_neq i (p_cur q))) by lia. reflexivity.
+    + apply olds_of_beyond, Hi.
+Qed.
+
+Theorem octave_law_from f q p a j : valid q -> 0 <= a <= 10 -> 0 <= a + j <= 10 -> keeps3_prog true true false p = true ->
+  moved_after q (only_track (p_cur q) (12 * j)) (sem_prog (S f) (COct a :: p) q) (sem_prog (S f) (COct (a + j) :: p) q).
+Proof.
+  intros V Ha Haj K. cbn [sem_prog].
+  assert (H := Prel_prog 0 (fun _ => 0) (only_track (p_cur q) j) (olds_of q) true true false (fun _ => eq_refl) (fun _ _ => eq_refl)
+                         (fun E => ltac:(discriminate E)) (S f) p _ _ K (Prel_oct_start f q a j V Ha Haj)).
+  destruct (Prel_moved 0 (fun _ => 0) (only_track (p_cur q) j) (olds_of q) q _ _ (fun _ => eq_refl) H) as ((ML & MT) & _).
+  split; [exact ML|]. intros i Hi. destruct (MT i Hi) as (nw & nw' & A & B & F).
+  exists nw, nw'. repeat split; try assumption.
+  replace (only_track (p_cur q) (12 * j) i) with (0 + 0 + 12 * only_track (p_cur q) j i); [exact F|].
+  unfold only_track. destruct (Nat.eqb i (p_cur q)); lia.
+Qed.
+
+Theorem octave_law pre p a j : 0 <= a <= 10 -> 0 <= a + j <= 10 -> keeps3_prog true true false p = true ->
+  moved_after (denote_prog pre) (only_track (p_cur (denote_prog pre)) (12 * j))
+              (denote_prog (pre ++ COct a :: p)) (denote_prog (pre ++ COct (a + j) :: p)).
+Proof.
+  intros Ha Haj K. destruct (denote_split pre (COct a) p) as (f & Hf & E1 & E0).
+  assert (E2 : denote_prog (pre ++ COct (a + j) :: p) = sem_prog (S f) (COct (a + j) :: p) (sem_prog (S f) pre perf0)).
+  { rewrite <- sem_prog_app. apply denote_prog_fuel.
+    rewrite (depth_same_shape pre (COct (a + j)) (COct a) p eq_refl). exact Hf. }
+  rewrite E1, E2, E0. apply octave_law_from; try assumption. apply sem_prog_valid, perf0_valid.
+Qed.
+
+(* on the machine *)
+Theorem octave_exec_at pre p a j : wf_prog pre = true -> wf_prog p = true -> 0 <= a <= 10 -> 0 <= a + j <= 10 ->
+  keeps3_prog true true false p = true ->
+  let X := pre ++ COct a :: p in
+  let X' := pre ++ COct (a + j) :: p in
+  exists s s',
+    exec_f (S (prog_depth X)) (fuel_of X) (top_tokens X) (Ok song_new) = Ok s /\ R s (denote_prog X) /\
+    exec_f (S (prog_depth X')) (fuel_of X') (top_tokens X') (Ok song_new) = Ok s' /\ R s' (denote_prog X') /\
+    moved_after (denote_prog pre) (only_track (p_cur (denote_prog pre)) (12 * j)) (denote_prog X) (denote_prog X').
+Proof.
+  intros W1 W2 Ha Haj K X X'.
+  assert (WX : forall c, wf_cmd c = true -> wf_prog (pre ++ c :: p) = true).
+  { intros c Hc. unfold wf_prog. rewrite forallb_app. cbn [forallb]. unfold wf_prog in W1, W2. rewrite W1, W2, Hc. reflexivity. }
+  destruct (exec_simulation_top X (WX (COct a) eq_refl) song_new (prog_depth X) (fuel_of X) R_init (le_n _) (le_n _)) as (s & E & HR).
+  destruct (exec_simulation_top X' (WX (COct (a + j)) eq_refl) song_new (prog_depth X') (fuel_of X') R_init (le_n _) (le_n _)) as (s' & E' & HR').
+  exists s, s'. exact (conj E (conj HR (conj E' (conj HR' (octave_law pre p a j Ha Haj K))))).
 Qed.
